@@ -753,3 +753,145 @@ Proof.
   destruct P as [d y st s], Q as [d' y' st' s']. unfold abs. cbn. intros H ->. inversion H; subst.
   destruct d, d'; cbn in *; try discriminate; reflexivity.
 Qed.
+
+(* ------------------------------------------------------------------ the find chains as programs *)
+
+Section BestChain.
+  Variable op : list Z -> Parser.pop.
+  Variable score : Parser.parser -> list Z -> Z.      (* smaller is better *)
+
+  Definition chain_winner (P : Parser.parser) (arms : arm_list) (j i : nat) (a : list Z)
+             (Q : Parser.parser) : Prop :=
+    nth_error arms j = Some (i, a) /\
+    Parser.step P (op a) = Parser.POk Parser.VNone Q /\
+    forall j' i' a' Q', nth_error arms j' = Some (i', a') ->
+      Parser.step P (op a') = Parser.POk Parser.VNone Q' ->
+      score Q a <= score Q' a' /\ ((j' < j)%nat -> score Q a < score Q' a').
+
+  (** call the method with every alternative ON THE SAME PARSER; keep the best result,
+      the earlier listed alternative on ties; [None]: every call failed *)
+  Fixpoint best_chain (P : Parser.parser) (arms : arm_list) : option (nat * list Z * Parser.parser) :=
+    match arms with
+    | [] => None
+    | (i, a) :: t =>
+        match Parser.step P (op a) with
+        | Parser.POk Parser.VNone Q =>
+            match best_chain P t with
+            | Some (i', a', Q') =>
+                if score Q' a' <? score Q a then Some (i', a', Q') else Some (i, a, Q)
+            | None => Some (i, a, Q)
+            end
+        | _ => best_chain P t
+        end
+    end.
+
+  Lemma best_chain_none P arms : best_chain P arms = None ->
+    forall i a Q, In (i, a) arms -> Parser.step P (op a) <> Parser.POk Parser.VNone Q.
+  Proof.
+    induction arms as [|[i0 a0] t IH]; intros H i a Q Hin; [destruct Hin|].
+    cbn [best_chain] in H. destruct Hin as [E|Hin].
+    - inversion E; subst. intro Hs. rewrite Hs in H.
+      destruct (best_chain P t) as [[[i' a'] Q']|]; [|discriminate].
+      destruct (score Q' a' <? score Q a); discriminate.
+    - refine (IH _ i a Q Hin).
+      destruct (Parser.step P (op a0)) as [v Q0|e|]; try exact H.
+      destruct v; try exact H.
+      destruct (best_chain P t) as [[[i' a'] Q']|]; [|discriminate].
+      destruct (score Q' a' <? score Q0 a0); discriminate.
+  Qed.
+
+  Lemma winner_skip_failed P i0 a0 t j i a Q :
+    (forall Q0, Parser.step P (op a0) <> Parser.POk Parser.VNone Q0) ->
+    chain_winner P t j i a Q -> chain_winner P ((i0, a0) :: t) (S j) i a Q.
+  Proof.
+    intros Hfail (Hn & Hs & Hw). split; [exact Hn|]. split; [exact Hs|].
+    intros [|j'] i' a' Q' Hn' Hs'; cbn [nth_error] in Hn'.
+    - inversion Hn'; subst. exfalso. exact (Hfail _ Hs').
+    - destruct (Hw j' i' a' Q' Hn' Hs') as [L S']. split; [exact L|]. intro Hj. apply S'. lia.
+  Qed.
+
+  Lemma best_chain_some P arms : forall i a Q, best_chain P arms = Some (i, a, Q) ->
+    exists j, chain_winner P arms j i a Q.
+  Proof.
+    induction arms as [|[i0 a0] t IH]; intros i a Q H; [discriminate|].
+    cbn [best_chain] in H.
+    destruct (Parser.step P (op a0)) as [v Q0|e|] eqn:Es.
+    2,3: destruct (IH i a Q H) as [j Hj]; exists (S j); apply winner_skip_failed; [intros Q0 C; congruence | exact Hj].
+    destruct v.
+    2,3,4: destruct (IH i a Q H) as [j Hj]; exists (S j); apply winner_skip_failed; [intros Q1 C; congruence | exact Hj].
+    destruct (best_chain P t) as [[[i' a'] Q']|] eqn:Eb.
+    - destruct (IH i' a' Q' eq_refl) as (j' & Hn' & Hs' & Hw').
+      destruct (Z.ltb_spec (score Q' a') (score Q0 a0)) as [Hlt|Hge]; inversion H; subst.
+      + exists (S j'). split; [exact Hn'|]. split; [exact Hs'|].
+        intros [|j2] i2 a2 Q2 Hn2 Hs2; cbn [nth_error] in Hn2.
+        * inversion Hn2; subst. rewrite Es in Hs2. inversion Hs2; subst. split; [lia | intros _; exact Hlt].
+        * destruct (Hw' j2 i2 a2 Q2 Hn2 Hs2) as [L S']. split; [exact L|]. intro Hj. apply S'. lia.
+      + exists 0%nat. split; [reflexivity|]. split; [exact Es|].
+        intros [|j2] i2 a2 Q2 Hn2 Hs2; cbn [nth_error] in Hn2.
+        * inversion Hn2; subst. rewrite Es in Hs2. inversion Hs2; subst. split; [lia | intro; lia].
+        * destruct (Hw' j2 i2 a2 Q2 Hn2 Hs2) as [L _]. split; [lia | intro; lia].
+    - inversion H; subst. exists 0%nat. split; [reflexivity|]. split; [exact Es|].
+      intros [|j2] i2 a2 Q2 Hn2 Hs2; cbn [nth_error] in Hn2.
+      + inversion Hn2; subst. rewrite Es in Hs2. inversion Hs2; subst. split; [lia | intro; lia].
+      + exfalso. apply nth_error_In in Hn2. exact (best_chain_none P t Eb i2 a2 Q2 Hn2 Hs2).
+  Qed.
+End BestChain.
+
+Definition find_chain : Parser.parser -> arm_list -> option (nat * list Z * Parser.parser) :=
+  best_chain Parser.OFindSkip match_start.
+(** latest end = smallest negated end *)
+Definition rfind_chain : Parser.parser -> arm_list -> option (nat * list Z * Parser.parser) :=
+  best_chain Parser.ORFindSkip (fun Q a => - match_end Q a).
+
+Lemma find_winner_generic P arms j i a Q :
+  chain_winner Parser.OFindSkip match_start P arms j i a Q <-> find_winner P arms j i a Q.
+Proof. reflexivity. Qed.
+
+Lemma rfind_winner_generic P arms j i a Q :
+  chain_winner Parser.ORFindSkip (fun Q a => - match_end Q a) P arms j i a Q <-> rfind_winner P arms j i a Q.
+Proof.
+  unfold chain_winner, rfind_winner. split; intros (Hn & Hs & Hw); (split; [exact Hn|]); (split; [exact Hs|]);
+    intros j' i' a' Q' Hn' Hs'; destruct (Hw j' i' a' Q' Hn' Hs') as [L S']; (split; [lia|]); intro Hj; specialize (S' Hj); lia.
+Qed.
+
+Lemma step_find_cases P a :
+  (exists Q, Parser.step P (Parser.OFindSkip a) = Parser.POk Parser.VNone Q) \/
+  (exists e, Parser.step P (Parser.OFindSkip a) = Parser.PErr e).
+Proof. rewrite step_find. destruct (find_skip_m _ _); eauto. Qed.
+Lemma step_rfind_cases P a :
+  (exists Q, Parser.step P (Parser.ORFindSkip a) = Parser.POk Parser.VNone Q) \/
+  (exists e, Parser.step P (Parser.ORFindSkip a) = Parser.PErr e).
+Proof. rewrite step_rfind. destruct (rfind_skip_m _ _); eauto. Qed.
+
+(** find_eq_chain, as an equation between two programs *)
+Lemma find_macro_eq_chain brs P :
+  fits P -> str_shape (Parser.p_str P) -> arms_shaped (arms_of brs) ->
+  find_macro AtStart brs (abs P) =
+  match find_chain P (arms_of brs) with
+  | Some (i, _, Q) => (Some i, abs Q)
+  | None => (None, abs P)
+  end.
+Proof.
+  intros Hf Hp Ha. destruct (find_chain P (arms_of brs)) as [[[i a] Q]|] eqn:E.
+  - apply best_chain_some in E. destruct E as [j HW].
+    apply (find_macro_some brs P i (abs Q) Hf Hp Ha). exists j, a, Q. split; [exact HW | reflexivity].
+  - apply (find_macro_none brs P (abs P) Hf Hp Ha). split; [reflexivity|]. intros i a Hin.
+    destruct (step_find_cases P a) as [[Q HQ]|He]; [|exact He].
+    exfalso. exact (best_chain_none _ _ P _ E i a Q Hin HQ).
+Qed.
+
+Lemma rfind_macro_eq_chain brs P :
+  arms_shaped (arms_of brs) ->
+  find_macro AtEnd brs (abs P) =
+  match rfind_chain P (arms_of brs) with
+  | Some (i, _, Q) => (Some i, abs Q)
+  | None => (None, abs P)
+  end.
+Proof.
+  intros Ha. destruct (rfind_chain P (arms_of brs)) as [[[i a] Q]|] eqn:E.
+  - apply best_chain_some in E. destruct E as [j HW]. apply rfind_winner_generic in HW.
+    apply (rfind_macro_some brs P i (abs Q) Ha). exists j, a, Q. split; [exact HW | reflexivity].
+  - apply (rfind_macro_none brs P (abs P) Ha). split; [reflexivity|]. intros i a Hin.
+    destruct (step_rfind_cases P a) as [[Q HQ]|He]; [|exact He].
+    exfalso. exact (best_chain_none _ _ P _ E i a Q Hin HQ).
+Qed.
